@@ -19,6 +19,7 @@ pub mod c15;
 pub mod c16;
 pub mod c17;
 pub mod c18;
+pub mod c19;
 pub mod fsenv;
 pub mod c20;
 
@@ -42,6 +43,7 @@ pub fn dispatch(r: &mut Runner) -> bool {
         "C16" => c16::run(r),
         "C17" => c17::run(r),
         "C18" => c18::run(r),
+        "C19" => c19::run(r),
         "C20" => c20::run(r),
         _ => return false,
     }
